@@ -20,6 +20,7 @@ import (
 	"github.com/MichaelMure/git-bug/verifshim/vctl"
 	"github.com/MichaelMure/git-bug/verifshim/vsync"
 
+	"verifharness/refmodel"
 	"verifharness/world"
 )
 
@@ -46,6 +47,7 @@ type Scenario struct {
 	Threads [][]Call `json:"threads"`
 	Size    int      `json:"size"`
 	Cold    bool     `json:"cold"` // close and reopen the cache before the threads start: nothing is loaded yet
+	IO      bool     `json:"io"`   // local-storage file operations (clock, cache files) are scheduling points too
 }
 
 // Issued is one operation a thread tried to record.
@@ -189,7 +191,9 @@ func RunOne(s Scenario, prefix []int, preempt bool, recordSites bool) (res Resul
 			})
 		}
 		vctl.SetActorFunc(vsync.CurrentThreadName)
+		vsync.IOEnabled = s.IO
 		res.Verdict = sched.Run()
+		vsync.IOEnabled = false
 		vctl.SetActorFunc(nil)
 	}
 	vctl.SetActor("check")
@@ -227,6 +231,25 @@ func RunOne(s Scenario, prefix []int, preempt bool, recordSites bool) (res Resul
 	if len(res.Panics) > 0 {
 		res.Outcome = "panic"
 		return res, nil
+	}
+
+	// ---- oracle: at quiescence the persisted clocks are not behind the clocks in memory (checked
+	// before anything else reads a bug: every read rewrites the clock files). If the process stopped
+	// here, a restart would hand out logical times this repository has already used.
+	for _, name := range []string{"bugs-edit", "bugs-create"} {
+		clk, err := e.repo.GetOrCreateClock(name)
+		if err != nil {
+			continue
+		}
+		for _, cv := range world.ClockValues(dir + "/repo/.git") {
+			if strings.HasPrefix(cv, name+"=") {
+				var v uint64
+				fmt.Sscanf(strings.TrimPrefix(cv, name+"="), "%d", &v)
+				if v < uint64(clk.Time()) {
+					add("c18.clock", "persisted-clock-behind-memory-at-quiescence:"+name, "all calls returned, the %s clock is %d in memory but its file holds %d: after a restart the repository would reuse logical times it has already written", name, clk.Time(), v)
+				}
+			}
+		}
 	}
 
 	// ---- oracle: git content vs acknowledged operations
@@ -328,6 +351,38 @@ func RunOne(s Scenario, prefix []int, preempt bool, recordSites bool) (res Resul
 	}
 	if live.query != rebuilt.query {
 		add("c18.cache", "query-differs-from-rebuild", "live cache query results %s, rebuilt %s", live.query, rebuilt.query)
+	}
+	// ---- oracle: the persisted clocks dominate what is stored, and the repository can go on after a
+	// restart: a fresh handle (clocks loaded from their files) edits the shared bug and reads it back
+	maxEdit := uint64(0)
+	for _, id := range ids {
+		if h, err := e.repo.ResolveRef("refs/bugs/" + string(id)); err == nil {
+			if d, err := refmodel.ReadDAG(e.repo, h); err == nil && d.MaxEdit() > maxEdit {
+				maxEdit = d.MaxEdit()
+			}
+		}
+	}
+	for _, cv := range world.ClockValues(dir + "/repo/.git") {
+		if strings.HasPrefix(cv, "bugs-edit=") {
+			var v uint64
+			fmt.Sscanf(strings.TrimPrefix(cv, "bugs-edit="), "%d", &v)
+			if v < maxEdit {
+				add("c18.clock", "persisted-edit-clock-below-stored-time", "after the run the persisted bugs-edit clock is %d but a stored commit has edit time %d", v, maxEdit)
+			}
+		}
+	}
+	if r3, err := repository.OpenGoGitRepo(dir+"/repo", world.Namespace, nil); err == nil {
+		if b, err := bug.Read(r3, e.shared); err == nil {
+			if u, err := identity.GetUserIdentity(r3); err == nil {
+				b.Append(bug.NewAddCommentOp(u, 1, "comment after restart", nil))
+				if err := b.Commit(r3); err != nil {
+					add("c18.clock", "commit-after-restart-fails", "after a restart a commit on the shared bug fails: %v", err)
+				} else if _, err := bug.Read(r3, e.shared); err != nil {
+					add("c18.clock", "bug-unreadable-after-restart-and-edit", "after a restart, one more comment makes the shared bug unreadable: %v", err)
+				}
+			}
+		}
+		_ = r3.Close()
 	}
 	for _, is := range res.Issued {
 		outcome = append(outcome, fmt.Sprintf("%s/%s=%v", is.Thread, is.Call, is.Acked))
